@@ -99,6 +99,7 @@ def worker_main(argv=None):
     ap.add_argument("--budget", type=float, default=30.0)
     ap.add_argument("--out", required=True)
     ap.add_argument("--case", type=int, default=None)
+    ap.add_argument("--extra", default=None)
     a = ap.parse_args(argv)
     t0 = time.time()
     ctx = Ctx(a.prop, a.tier, a.seed, a.sub, a.nsub, t0 + a.budget)
@@ -108,7 +109,10 @@ def worker_main(argv=None):
         mod = importlib.import_module("vf.props." + a.prop)
         if hasattr(mod, "setup"):
             mod.setup(ctx)
-        if a.case is not None:
+        if a.extra is not None:
+            # an additional workload run beside the case workers (e.g. the repository's test-suite under monitors)
+            getattr(mod, "extra_" + a.extra)(ctx)
+        elif a.case is not None:
             ctx.case_index = a.case
             mod.case(ctx, a.case, ctx.case_rng(a.case))
         else:
@@ -210,6 +214,11 @@ def main(argv=None):
                 sys.executable, "-B", "-m", "vf.worker", "--prop", prop, "--tier", tier, "--seed", str(a.seed),
                 "--sub", str(k), "--nsub", str(nsub), "--budget", str(budget), "--out", out,
             ]
+            jobs.append((cmd, out))
+        for name in getattr(mod, "EXTRA_JOBS", {}).get(tier, []):
+            out = os.path.join(WORK, f"{prop}-{tier}-{a.seed}-extra-{name}.json")
+            cmd = [sys.executable, "-B", "-m", "vf.worker", "--prop", prop, "--tier", tier, "--seed", str(a.seed),
+                   "--extra", name, "--budget", str(budget * 3), "--out", out]
             jobs.append((cmd, out))
     if not a.replay:
         # replay files of earlier runs of this property are stale
